@@ -12,7 +12,35 @@ import (
 type Locker = sync.Locker
 type Once = sync.Once
 type Map = sync.Map
-type Pool = sync.Pool
+
+// Pool is a deterministic stand-in for sync.Pool: Get returns the most recently Put item (what a
+// real pool does on one P, and the most adversarial legal answer for buffer aliasing), New() when
+// empty.
+type Pool struct {
+	New   func() interface{}
+	mu    sync.Mutex
+	items []interface{}
+}
+
+func (p *Pool) Get() interface{} {
+	p.mu.Lock()
+	defer p.mu.Unlock()
+	if n := len(p.items); n > 0 {
+		x := p.items[n-1]
+		p.items = p.items[:n-1]
+		return x
+	}
+	if p.New != nil {
+		return p.New()
+	}
+	return nil
+}
+
+func (p *Pool) Put(x interface{}) {
+	p.mu.Lock()
+	p.items = append(p.items, x)
+	p.mu.Unlock()
+}
 
 type Mutex struct {
 	held bool
